@@ -56,10 +56,14 @@ def _walk(ctx, rel, cls, q, tag="", **kw):
     k = (q, tag)
     if k not in cache:
         fn = _func(ctx, rel, q)
+        wk = None
         try:
-            cache[k] = C.Walker(ctx, rel, cls, fn, **kw).run_function()
+            wk = C.Walker(ctx, rel, cls, fn, **kw)
+            cache[k] = wk.run_function()
         except (Stuck, Unsupported) as e:
             cache[k] = e
+            # (what the walk met before it got stuck is still known: a name read that nothing binds is a verdict of its own)
+            e.unbound = [(ev_[1], ev_[2]) for ev_ in (wk.events if wk is not None else []) if ev_[0] == "unbound"]
         except RecursionError:
             cache[k] = Stuck("the walk does not end (recursion limit)")
         except Exception as e:  # noqa  (a construct that trips the evaluator is one it cannot lower: an analysis error, never a crash of the rule)
@@ -71,6 +75,11 @@ def _walk(ctx, rel, cls, q, tag="", **kw):
         _func(ctx, rel, q)
     w = cache[k]
     if isinstance(w, Exception):
+        ub = getattr(w, "unbound", None)
+        if ub and not getattr(w, "_reported", False):
+            w._reported = True
+            ctx.check(False, f"{q.split('.')[-1]}: every name a reading path uses is bound where it is read (a local no path has assigned / a name "
+                             "nothing defines raises UnboundLocalError / NameError: that path decodes nothing)", ub[0][1], sorted({n for n, _x in ub}))
         ctx.error(f"{q.split('.')[-1]}: cannot follow the file position", _func(ctx, rel, q), str(w))
         return None
     # bytes of the file decoded into a number that steers the reading (a count, a test) through a function the evaluator does not model
@@ -81,6 +90,19 @@ def _walk(ctx, rel, cls, q, tag="", **kw):
         ctx.error(f"{q.split('.')[-1]}: bytes read from the file steer the reading through a decoder the evaluator does not model",
                   _func(ctx, rel, q), w._c11_unmodelled)
         return None
+    if not hasattr(w, "_c11_unbound"):
+        w._c11_unbound = sorted({e[1] for e in w.events if e[0] == "unbound"})
+        if w._c11_unbound:
+            # (reported once, by the rule that walks the function first)
+            node = [e[2] for e in w.events if e[0] == "unbound"][0]
+            ctx.check(False, f"{q.split('.')[-1]}: every name a reading path uses is bound where it is read (a local no path has assigned / a name "
+                             "nothing defines raises UnboundLocalError / NameError: that path decodes nothing)", node, w._c11_unbound)
+    if not hasattr(w, "_c11_floats"):
+        w._c11_floats = _float_amounts(w.top.items)
+        if w._c11_floats:
+            # (reported once, by the rule that walks the function first)
+            ctx.check(False, f"{q.split('.')[-1]}: a number of bytes / lines / values handed to read, seek, fromfile, islice or range is an integer "
+                             "(`/` gives a float, which these calls reject: every use fails)", _func(ctx, rel, q), repr(w._c11_floats[0])[:300])
     return w
 
 
@@ -341,6 +363,17 @@ def _counter(lp):
     if len(upd) != 1 or upd[0] is None or is_unknown(upd[0]):
         return ps[0], None
     return ps[0], ps[0] - upd[0]
+
+
+def _counter_loose(lp):
+    """the one loop-carried local a loop test compares with a constant -> (P, True when the test is `P > 0`), (None, False) when there is none"""
+    t = C.fn_parts(C.norm(lp.test)) if _rat(lp.test) else None
+    if t is None or t[0] != "ge0":
+        return None, False
+    ps = _lv_in(t[1][0], lp.frame)
+    if len(ps) != 1 or not (t[1][0] - ps[0]).is_const():
+        return None, False
+    return ps[0], (t[1][0] + 1).equals(ps[0])
 
 
 def _tested_counter(lp):
@@ -792,6 +825,30 @@ def _header_field(v, anywhere=False):
     return None
 
 
+def _whole_head(ctx, src):
+    """the read a decoded word comes from is one read of the three words of a column head (12 / 24 bytes)"""
+    r = C.fn_parts(src) if _rat(src) else None
+    if r is None or r[0] != "rd" or len(r[1]) != 3 or not _rat(r[1][2]):
+        return False
+    tbs = T.tables(ctx)["op4"]
+    return all(C.same(T.numval(C.norm(r[1][2]), tbs[b]), F.const(3 * (b // 8))) for b in (32, 64))
+
+
+def _header_piece(v):
+    """a decoded piece of the line / read that starts the frame which is *not* one of its fields: int(line[a:b]) off the 8-column grid"""
+    p = C.fn_parts(v) if _rat(v) else None
+    if p is None or p[0] != "call:int" or len(p[1]) != 1 or not _rat(p[1][0]):
+        return False
+    q = C.fn_parts(p[1][0])
+    if q is None or q[0] != "idx":
+        return False
+    base, sl = C.fn_parts(q[1][0]), C._slice_parts(q[1][1]) if _rat(q[1][1]) else None
+    if base is None or base[0] != "ln" or sl is None:
+        return False
+    a, b = sl[0], sl[1]
+    return a is not None and b is not None and a.is_const() and b.is_const() and _header_field(v, anywhere=True) is None
+
+
 def _words_in(values):
     """the arguments of hi16(.) / lo16(.) occurring in some formulas"""
     out = []
@@ -951,8 +1008,12 @@ def r3_sibling_decoders(ctx):
             f1 = _header_field(r + 1) if _rat(r) else None
 
             def near_field(v, off):
-                """v is a header field up to a constant other than the expected one: a definite difference"""
-                return _rat(v) and any(_header_field(v + k) is not None for k in range(-3, 4) if k != off)
+                """v is a header field up to a constant other than the expected one, or a piece of the header cut at other columns than a
+                field's, or of another sign: a definite difference"""
+                if not _rat(v):
+                    return False
+                cands = [s_ * v + k for s_ in (1, -1) for k in range(-3, 4) if not (s_ == 1 and k == off)]
+                return any(_header_field(x) is not None or _header_piece(x) for x in cands + [v + off])
             ok = f0 is not None and f0[1] == 0
             text = f"{reader}: bigmat words consumed per string = L_header + 1, L_header being the first header field"
             if ok or f0 is not None or near_field(dec, -1):
@@ -1020,6 +1081,12 @@ def r3_sibling_decoders(ctx):
                 h1 = _header_field(upd[0], anywhere=True) if len(upd) == 1 and _rat(upd[0]) else None
                 h0 = _header_field(ent, anywhere=True) if ent is not None else None
                 ok = h1 is not None and h0 is not None and h1[1] == 1 and h0[1] == 1 and h1[0] == h0[0] and h1[0] in ("word", "field")
+                if not ok and any(h is not None and h[0] == "word" and not _whole_head(ctx, h[2]) for h in (h0, h1)):
+                    # the head of a column read word by word / cut out of a larger read: which word of the head a value is cannot be told from
+                    # its place in the decode
+                    ctx.error(f"{reader}: the first row of a dense column = (row field of its column header) - 1 [cannot be decided: the column head is not "
+                              "decoded as one read of three words]", puts[0][5], {"first row": repr(r)})
+                    continue
             if not ok:
                 detail = {"first row": repr(r)}
         _verdict(ctx, ok, f"{reader}: the first row of a dense column = (row field of its column header) - 1", puts[0][5], detail, r)
@@ -1151,34 +1218,33 @@ def _opaque_amount_in(v):
     return False
 
 
-def _unjudgeable(items):
-    """why a consumption tree cannot be compared / measured: a loop with several exits that has no normal form, an absolute seek"""
+def _unjudgeable(items, amounts=False):
+    """why a consumption tree cannot be compared / measured: a loop with several exits that has no normal form, an absolute seek
+    (`amounts`: only what is consumed is judged, not when the loops stop)"""
     for it in items:
-        if it[0] in ("B", "L", "abs", "if") and _opaque_amount_in(it[1]):
-            return "an amount or a test computed by a function the evaluator does not model"
-        if it[0] == "loop" and (_opaque_amount_in(it[1].test) or any(_opaque_amount_in(v) for _p, v in it[1].carry)):
-            return "a loop on a value computed by a function the evaluator does not model"
-        if it[0] == "loop" and _flag_loop(it[1]):
+        if it[0] in ("B", "L", "abs") and _opaque_amount_in(it[1]):
+            return "an amount computed by a function the evaluator does not model"
+        if it[0] == "loop" and _flag_loop(it[1]) and not amounts:
             return "a loop steered by a flag whose meaning could not be resolved"
         if it[0] == "abs" and _position_like(it[1]):
             # (a target made of nothing but words decoded from the file and constants is a position counted from the start of the file:
             # that can be judged - it is not where a reader that works record by record has to go)
             return "an absolute seek"
         if it[0] == "if":
-            r = _unjudgeable(it[2]) or _unjudgeable(it[3])
+            r = _unjudgeable(it[2], amounts) or _unjudgeable(it[3], amounts)
             if r:
                 return r
         if it[0] == "loop":
             lp = it[1]
             if lp.kind == "while" and not lp.forced and _rat(lp.test) and C.norm(lp.test).is_const():
                 return "a `while True` loop with several exits"
-            r = _unjudgeable(lp.items)
+            r = _unjudgeable(lp.items, amounts)
             if r:
                 return r
     return None
 
 
-def _tree_check(ctx, ok, text, where, detail, *trees, bound=True, pair=None):
+def _tree_check(ctx, ok, text, where, detail, *trees, bound=True, pair=None, amounts=False):
     """an obligation on the shape / amounts of consumption trees: when it does not hold and a tree has no normal form - or the things it
     speaks about could not be found (`bound` false) - the rule cannot judge (analysis error); otherwise it is a verdict"""
     if not ok and not bound:
@@ -1192,7 +1258,7 @@ def _tree_check(ctx, ok, text, where, detail, *trees, bound=True, pair=None):
         detail = {"detail": detail, "differ for instance with": wit}
     if not ok:
         for t in trees:
-            why = _unjudgeable(t) if t is not None else None
+            why = _unjudgeable(t, amounts) if t is not None else None
             if why:
                 ctx.error(text + f" [cannot be judged: {why}]", where, detail)
                 return False
@@ -1206,6 +1272,13 @@ def _same_tree(ctx, a, b, text, where, whole_values=True, detail=None):
     why = []
     ok = C.same_items(a, b, whole_values=whole_values, why=why)
     odd_ones = sorted(n for n in _decoders(a) ^ _decoders(b) if n not in MODELLED_DECODERS and n != "call:int" and not n.startswith("call:."))
+    wit = C.refute(*C.LAST_DIFFERENCE[0]) if (not ok and C.LAST_DIFFERENCE) else None
+    if not ok and wit is not None:
+        # two amounts / tests at the same place of the two trees, made of the same things, with numbers on which they differ: a verdict
+        d = {"first difference": why[:1], "differ for instance with": wit}
+        d.update(detail() if callable(detail) else (detail or {}))
+        ctx.check(False, text, where, d)
+        return False
     if not ok and odd_ones:
         ctx.error(text + " [one side decodes what it reads through a function the other does not use and the evaluator does not model: " +
                   ", ".join(odd_ones) + "]", where, {"first difference": why[:1]})
@@ -1217,12 +1290,9 @@ def _same_tree(ctx, a, b, text, where, whole_values=True, detail=None):
     if not ok:
         d = {"first difference": why[:1]}
         if C.LAST_DIFFERENCE:
-            # two amounts / tests that are not the same formula: a violation only with numbers on which they differ
-            wit = C.refute(*C.LAST_DIFFERENCE[0])
-            if wit is None:
-                ctx.error(text + " [cannot be decided: two amounts are not the same formula, and no numbers were found on which they differ]", where, d)
-                return False
-            d["differ for instance with"] = wit
+            # two amounts / tests that are not the same formula: a violation only with numbers on which they differ (none were found)
+            ctx.error(text + " [cannot be decided: two amounts are not the same formula, and no numbers were found on which they differ]", where, d)
+            return False
         d.update(detail() if callable(detail) else (detail or {}))
     ctx.check(ok, text, where, d)
     return ok
@@ -1248,6 +1318,54 @@ def _after_loops(items, cont=()):
             for arm in (it[2], it[3]):
                 ends = any(x[0] == "exit" for x in arm)
                 out.extend(_after_loops(arm, () if ends else rest))
+    return out
+
+
+def _path_totals(items, unit):
+    """the amount consumed on every path through the branches of an item list (no loops): [(path conditions, total)] or None"""
+    out = [((), F.const(0))]
+    for it in C.tidy(items):
+        if it[0] == unit:
+            if is_unknown(it[1]):
+                return None
+            out = [(g, t + it[1]) for g, t in out]
+        elif it[0] == "if":
+            a, b = _path_totals(it[2], unit), _path_totals(it[3], unit)
+            if a is None or b is None:
+                return None
+            out = [(g + ((it[1], True),) + ga, t + ta) for g, t in out for ga, ta in a] + [(g + ((it[1], False),) + gb, t + tb) for g, t in out for gb, tb in b]
+            if len(out) > 32:
+                return None
+        elif it[0] in ("loop", "abs"):
+            return None
+        elif it[0] == "exit":
+            break
+    return out
+
+
+def _stray_seeks(items):
+    """the absolute seeks, anywhere in an item list, whose target is made of nothing but words of the records and sizes (not a remembered position)"""
+    out = []
+    for it in C.tidy(items):
+        if it[0] == "abs" and not _position_like(it[1]):
+            out.append(it)
+        elif it[0] == "if":
+            out += _stray_seeks(it[2]) + _stray_seeks(it[3])
+        elif it[0] == "loop":
+            out += _stray_seeks(it[1].items)
+    return out
+
+
+def _float_amounts(items):
+    """the amounts of a consumption tree computed by true division: floats, which read / seek / fromfile / islice / range reject"""
+    out = []
+    for it in items:
+        if it[0] in ("B", "L", "abs") and _rat(it[1]) and any(d[0] == "fn" and d[1] == "truediv" for d in C.walk_atoms(it[1])):
+            out.append(it[1])
+        elif it[0] == "if":
+            out += _float_amounts(it[2]) + _float_amounts(it[3])
+        elif it[0] == "loop":
+            out += _float_amounts(it[1].items)
     return out
 
 
@@ -1316,14 +1434,14 @@ def r4_read_equals_skip(ctx):
         word = F.fn("idx", F.fn("dec", F.fn("rd", rec[0].frame, F.const(0), F.const(4))), F.const(0)) if ok else None
         ok = ok and C.same(C.total(rec[0].items, "B"), 4 + word + 4 + KEY)
         _tree_check(ctx, ok, "rdop2matrix: per record reads 4 + ibytes + n*bytes_per + 4 bytes with n = (reclen - ibytes)//bytes_per (= 4 + reclen + 4 for "
-                    "whole values), on both sides of the cut-over", rec[0].node if rec else rm.fn, None if ok else C.show(rm.top.items)[:400], rm.top.items, bound=bound)
+                    "whole values), on both sides of the cut-over", rec[0].node if rec else rm.fn, None if ok else C.show(rm.top.items)[:400], rm.top.items, bound=bound, amounts=True)
     if sm is not None:
         rec = [lp for lp in C.loops_in(sm.top.items) if not C.loops_in(lp.items)]
         ok = bound = len(rec) == 1 and C.total(rec[0].items, "B") is not None
         word = F.fn("idx", F.fn("dec", F.fn("rd", rec[0].frame, F.const(0), F.const(4))), F.const(0)) if ok else None
         ok = ok and C.same(C.total(rec[0].items, "B"), 4 + word + 4 + KEY, whole_values=False)
         _tree_check(ctx, ok, "skipop2matrix: per record skips 4 + reclen + 4 bytes", rec[0].node if rec else sm.fn, None if ok else C.show(sm.top.items)[:400], sm.top.items,
-                    bound=bound)
+                    bound=bound, amounts=True)
     # ---- records
     rr, sr = _w2(ctx, "rdop2record"), _w2(ctx, "skipop2record")
     sk_loop = None
@@ -1336,7 +1454,7 @@ def r4_read_equals_skip(ctx):
             bound = C.total(sk_loop.items, "B") is not None and C.total(_until_exit(tail), "B") is not None
             ok = bound and C.same(C.total(sk_loop.items, "B"), 4 + word + 4 + KEY, whole_values=False) and C.same(C.total(_until_exit(tail), "B"), 2 * KEY)
         _tree_check(ctx, ok, "skipop2record: per record 4 + (reclen + 4) bytes, then the two trailing keys", sr.fn, None if ok else C.show(sr.top.items)[:400], sr.top.items,
-                    bound=bound)
+                    bound=bound, amounts=True)
     if rr is not None:
         al = _after_loops(rr.top.items)
         _bound(ctx, len(al) >= 2, f"rdop2record: {len(al)} record loops (raw bytes; decoded values)", rr.fn)
@@ -1358,7 +1476,7 @@ def r4_read_equals_skip(ctx):
             ntail += t is not None and C.same(t, 2 * KEY)
             tails_bound = tails_bound and t is not None
         _tree_check(ctx, ntail == len(al) and ntail > 0, "rdop2record: two trailing keys are skipped on every exit that follows a record loop", rr.fn, None, rr.top.items,
-                    bound=tails_bound and bool(al))
+                    bound=tails_bound and bool(al), amounts=True)
     # ---- table headers and DYNAMICS: a record of `key` words
     for name, label in (("rdop2tabheaders", "rdop2tabheaders: per record 4 + 3*ibytes + (key - 3)*ibytes + 4 bytes (= 4 + key*ibytes + 4; reclen = key * ibytes)"),
                         ("rdop2dynamics", "rdop2dynamics: per record 4 + 3*ibytes + (key - 3)*ibytes + 4 bytes whichever of the three routes (struct, fromfile, seek) "
@@ -1371,12 +1489,16 @@ def r4_read_equals_skip(ctx):
         detail = None
         if ok:
             lp, tail = rec[0]
-            P, _dec = _counter(lp)
-            tot = C.total(lp.items, "B")
-            bound = P is not None and tot is not None
+            P, strict = _counter_loose(lp)
+            tots = _path_totals(lp.items, "B")           # (one total per route through the record: they must all be the record)
+            stray = _stray_seeks(lp.items)     # a seek to an absolute offset made of record words: not a record reader's move
+            bound = P is not None and (tots is not None or bool(stray))
             # the payload: `key` words of the key width, or - the same for a table record - what the record marker announces
             word = F.fn("idx", F.fn("dec", F.fn("rd", lp.frame, F.const(0), F.const(4))), F.const(0))
-            ok = P is not None and tot is not None and (C.same(tot, 4 + P * KEYB + 4 + KEY) or C.same(tot, 4 + word + 4 + KEY))
+            ok = bound and strict and tots is not None and all(C.same(tot, 4 + P * KEYB + 4 + KEY) or C.same(tot, 4 + word + 4 + KEY) for _g, tot in tots)
+            if P is None and _rat(lp.test) and not _lv_in(lp.test, lp.frame) and not any(
+                    d[0] == "fn" and d[1] in ("rd", "ln") and C._arg(d[2][0]).equals(lp.frame) for d in C.walk_atoms(lp.test)):
+                bound = True          # nothing the loop does changes its test: it reads no record or never stops - a verdict
             if not ok:
                 detail = C.show(lp.items)[:400]
             if ok:
@@ -1385,13 +1507,15 @@ def r4_read_equals_skip(ctx):
                 ok = len(t2) >= 1 and t2[0][0] == "B" and len(t2) >= 2 and t2[1][0] == "if" and C.same(t2[0][1], 2 * KEY + 4)
                 if not ok:
                     detail = C.show(tail)[:300]
-        _tree_check(ctx, ok, label + "; two trailing keys and the end-of-table key follow", w.fn, detail, w.top.items, bound=bound)
+        _tree_check(ctx, ok, label + "; two trailing keys and the end-of-table key follow", w.fn, detail, w.top.items, bound=bound, amounts=True)
     # ---- op4 binary: record = [4][3 words][payload][4]
     tbs = T.tables(ctx)["op4"]
     sb = _w4(ctx, "_skipop4_binary")
     if sb is not None:
         lps = C.loops_in(sb.top.items)
         ok = bound = len(lps) == 1 and C.total(lps[0].items, "B") is not None
+        if not bound and len(lps) == 1 and any(it[0] == "abs" and not _position_like(it[1]) for it in C.tidy(lps[0].items)):
+            bound = True          # (a seek to an absolute offset made of the words of the record: not a move by the record length - a verdict)
         if ok:
             lp = lps[0]
             word = F.fn("idx", F.fn("dec", F.fn("rd", lp.frame, F.const(0), F.const(4))), F.const(0))
